@@ -49,3 +49,47 @@ package mcp
 // The package initializer establishes the package invariants (checked at the assignment) and the engine's
 // frame check shows the variables named in them are never assigned again, mutated or aliased.
 //@ func init [C07]
+
+// ---------------------------------------------------------------------------------------------
+// C06: initialization gate and per-request metadata
+// ---------------------------------------------------------------------------------------------
+
+//@ func remarshal [C06]
+//@   modifies reach(to)
+
+// decodeMetaValue reads m[key] and, where needed, re-decodes it into a fresh value: nothing visible changes.
+//@ func decodeMetaValue [C06]
+
+//@ pred preInitMethod(m string) := m == methodInitialize || m == methodPing || m == notificationInitialized || m == notificationCancelled
+//@ pred removedIn2026(m string) := m == methodInitialize || m == methodPing || m == notificationInitialized || m == notificationRootsListChanged
+//@      || m == methodSetLevel || m == methodSubscribe || m == methodUnsubscribe
+
+// The gate of the receive path. 'dispatched' is the call of handleReceive. vm is the validated per-request
+// metadata, init the lifecycle bit read at the top.
+//@ func (*ServerSession).handle [C06]
+//@   track validateRequestMeta as vrm
+//@   track handleReceive as dispatch
+//@   snapshot afterMeta after call validateRequestMeta
+//@   ghost vm := callResult(vrm, 1, 0)
+//@   ghost metaErr := callResult(vrm, 1, 1)
+//@   ghost isNew := at(afterMeta, vm.usesNewProtocol)
+//@   ghost version := at(afterMeta, vm.initializeParams.ProtocolVersion)
+//@   ghost init := old(ss.state.InitializeParams != nil)
+//@   ghost method := old(req.Method)
+//@   modifies *
+//@   requires ss != nil && req != nil && ss.server != nil && ss.server.opts.Logger != nil
+//@   assert at call handleReceive: @gate-legacy metaErr == nil && !isNew && !init ==> preInitMethod(method)
+//@   assert at call handleReceive: @gate-new metaErr == nil && isNew ==> sdkSupports(version) && !removedIn2026(method)
+//@   assert at call handleReceive: @discover-needs-meta method == methodDiscover ==> isNew
+//@   assert at call handleReceive: @meta-valid metaErr == nil && $2 == req
+//@   ensures @dispatch-at-most-once calls(dispatch) <= 1
+//@   ensures @ping-always-served metaErr == nil && !isNew && method == methodPing ==> calls(dispatch) == 1
+//@   ensures @lifecycle-always-dispatched metaErr == nil && !isNew && (method == methodInitialize || method == notificationInitialized) ==> calls(dispatch) == 1
+//@   ensures @meta-error-returned metaErr != nil ==> calls(dispatch) == 0 && result.1 == metaErr
+//@   ensures @unsupported-version metaErr == nil && isNew && !sdkSupports(version) ==> calls(dispatch) == 0
+//@        && typeIs(result.1, *jsonrpc.Error) && result.1.(*jsonrpc.Error).Code == CodeUnsupportedProtocolVersion
+//@   ensures @removed-method metaErr == nil && isNew && sdkSupports(version) && removedIn2026(method) ==> calls(dispatch) == 0
+//@        && typeIs(result.1, *jsonrpc.Error) && result.1.(*jsonrpc.Error).Code == jsonrpc.CodeMethodNotFound
+//@   ensures @discover-without-meta metaErr == nil && !isNew && method == methodDiscover ==> calls(dispatch) == 0
+//@        && typeIs(result.1, *jsonrpc.Error) && result.1.(*jsonrpc.Error).Code == jsonrpc.CodeMethodNotFound
+//@   ensures @not-initialized metaErr == nil && !isNew && !init && !preInitMethod(method) && method != methodDiscover ==> calls(dispatch) == 0 && result.1 != nil
